@@ -164,6 +164,10 @@ def gen(t, tier):
     # tiles out of the merged tiles of the inner one; tiles are only ever created, never rewritten, in these cases
     sc['cascade'] = backend == 'file' and not sc['two_sources'] and not sc['err404'] and bool(t.chance(0.15))
     sc['watermark'] = not sc['cascade'] and bool(t.chance(0.15))
+    sc['wmsc2'] = sc['service'] == 'wmsc' and backend == 'file' and not (sc['cascade'] or sc['two_sources'] or sc['err404']) and \
+        bool(t.chance(0.4))
+    if sc['wmsc2']:
+        sc['ocean'] = False
     if sc['cascade']:
         sc['refresh'] = None
         sc['ocean'] = False
@@ -349,8 +353,22 @@ def _run(sc, tape):
         conf['sources']['src']['on_error'] = {404: {'response': sc['fill'], 'cache': True},
                                               500: {'response': sc['fill'], 'cache': False}}
 
+    layer_param = 'lay'
+    if sc.get('wmsc2'):
+        # WMS-C request for two cached layers at once: the base layer and a (here: empty, fully transparent) overlay layer
+        # with a cache of its own; the answer is merged from one tile of each cache
+        conf['sources']['src_t'] = {'type': 'wms', 'req': {'url': 'http://upstream.sim/service?', 'layers': 't', 'transparent': True},
+                                    'supported_srs': ['EPSG:3857'],
+                                    'on_error': {500: {'response': 'transparent', 'cache': False}}}
+        c2 = copy.deepcopy(conf['caches']['c1'])
+        c2['sources'] = ['src_t']
+        c2['image'] = {'colors': 0, 'mode': 'RGBA', 'transparent': True}
+        conf['caches']['c2'] = c2
+        conf['layers'].append({'name': 'ovl', 'title': 'overlay', 'sources': ['c2']})
+        http.transparent_layers = set(['t'])
+        layer_param = 'lay,ovl'
     coords = [tuple(c) for c in sc['coords']]
-    urls = [url_for(sc['service'], c) for c in coords]
+    urls = [url_for(sc['service'], c, layer_param) for c in coords]
     last = {}            # url index -> last non-creating 200 response of the current epoch
     prev = {}            # url index -> validators of an older epoch: {'etag', 'lm'}
     judged = [0]
